@@ -26,6 +26,13 @@ func (x *Exec) countCall(st *State, f *Term) {
 	st.setGhostArr("callcount", Store(cc, f, Add(Select(cc, f), IntLit(1))))
 }
 
+// notHijacked: a response written through a hijacked responder never reaches the client.
+func (x *Exec) notHijacked(fr *Frame, st *State, pc *preparedCall) {
+	r := x.asTermAny(pc.recv)
+	x.oblige(fr, st, "pre", "Responder/not-hijacked@"+x.siteLabel(pc.e), Eq(x.ghostSel(st, "hijacked", r), IntLit(0)), pc.e)
+	x.Obls[len(x.Obls)-1].Tag = "C16"
+}
+
 func (x *Exec) recordStatus(st *State, w *Term, code *Term) {
 	hs := st.ghostArr("httpstatus", SInt)
 	st.setGhostArr("httpstatus", Store(hs, w, code))
@@ -221,6 +228,7 @@ func init() {
 	}
 	models[rp+"Write"] = func(x *Exec, fr *Frame, st *State, pc *preparedCall, k func(*State, []Value)) {
 		w := x.asTermAny(pc.recv)
+		x.notHijacked(fr, st, pc)
 		// http.ResponseWriter.WriteHeader panics for a status code outside 100..999
 		code := pc.args[0].(IntV).T
 		x.oblige(fr, st, "pre", "Responder.Write/status-code@"+x.siteLabel(pc.e), And(Ge(code, IntLit(100)), Le(code, IntLit(999))), pc.e)
@@ -233,10 +241,12 @@ func init() {
 		k(st, []Value{IntV{n}, x.freshErr(st, "werr")})
 	}
 	models[rp+"WriteEmpty"] = func(x *Exec, fr *Frame, st *State, pc *preparedCall, k func(*State, []Value)) {
+		x.notHijacked(fr, st, pc)
 		x.recordStatus(st, x.asTermAny(pc.recv), pc.args[0].(IntV).T)
 		k(st, []Value{x.freshErr(st, "werr")})
 	}
 	models[rp+"WriteError"] = func(x *Exec, fr *Frame, st *State, pc *preparedCall, k func(*State, []Value)) {
+		x.notHijacked(fr, st, pc)
 		x.recordStatus(st, x.asTermAny(pc.recv), pc.args[1].(IntV).T)
 		// httperrs(r): how many error responses the proxy itself produced on r
 		he := st.ghostArr("httperrs", SInt)
